@@ -1,6 +1,29 @@
 (* C02/Props.v — property-level theorems only. Tags [FULL]/[PARTIAL]/[REFUTED] are read by bin/check.
    The model is Raft/Core.v (every handler of pkg/raft/raft transcribed, each log.Fatalf an explicit outcome), tied to the
    Go code on every run by the correspondence of Raft/Wire.v.run_case with the real `core` objects. *)
+
+(* INDEX for a reader.  The property has four clauses; for each the STRONGEST theorem is the one over the combined alphabet cstep of
+   Raft/MemberSnapSystemU.v (rounds 11-12): any number of nodes from initial states, every event of Core.run_event on any node
+   with a crash after any durable mutation followed by newCore - deliveries of any message ever sent (InstallSnap included) in any
+   order and multiplicity, ticks, proposals, AddNode, RemoveNode, SnapshotDone, restarts - under four side conditions:
+   (i) one duplicate-free bootstrap membership, (ii) proposals carry no configuration entries, (iii) no node is asked to add
+   itself, weakened in four_clauses_combined_with_refused_self_add to the cases the core refuses, (iv) SnapshotDone as fsm_loop.go
+   issues it (applied position, its term, lastAppliedMembership).
+     clause 1, election safety         election_safety_combined
+     clause 2, leader completeness     leader_completeness_combined         (logical logs: covered prefix then physical log)
+     clause 3, log matching            log_matching_combined                (logical logs)
+     clause 4, state machine safety    state_machine_safety_combined
+     witnesses                         combined_run_nonvacuous, state_machine_safety_combined_nonvacuous
+   Special cases kept for their simpler alphabets and ghost-free statements:
+     fixed membership, no snapshots (rounds 1-3)      election_safety, election_safety_fixed_membership, log_matching,
+                                                      leader_completeness, state_machine_safety, committed_entry_never_truncated
+     fixed membership WITH snapshots (round 5)        the theorems named with_snapshots
+     membership changes WITHOUT snapshots (round 8)   the theorems named membership_change (physical logs, no ghost assignment)
+   Node-level mechanisms and building blocks (term_monotone, vote_once_per_term, the step summaries, the passes named partial)
+   are used by the proofs above and are kept because other properties import them.
+   The leader-loop contract assumed by C03: leader_commits_own_suffix (round 3), with_snapshots (round 9),
+   with_reconfiguration (round 13: AddNode, RemoveNode and SnapshotDone inside the loop).
+   What is not proved is listed in the NOT YET PROVED block at the end of the file. *)
 From Coq Require Import List NArith ZArith.
 From BLB Require Import Lib.LTS Raft.Core Raft.Wire Raft.NodeElect Raft.NodeMono Raft.NodeLeader Raft.NodeConf Raft.Election Raft.ElectionFixed Raft.ElectionExample Raft.Mechanisms C02.Proofs.
 From BLB Require Import Raft.LogMatchLists Raft.LogMatchNode Raft.LogMatch Raft.Completeness Raft.LogMatchExample Raft.SMSafetyNode Raft.SMSafety Raft.SMSafetyExample Raft.LeaderSuffix Raft.LeaderSuffixExample Raft.CompletenessAck Raft.CompletenessVote Raft.CompletenessExample Raft.SMSafetyBound Raft.CompletenessCommit Raft.CommitExample.
@@ -1558,16 +1581,120 @@ Theorem state_machine_safety_combined_nonvacuous :
 Proof. exact Raft.CombinedRunSMS.combined_run_sms. Qed.
 Print Assumptions state_machine_safety_combined_nonvacuous.
 
+(* ---------------------------------------------------------------- round 13: the leader loop with reconfiguration and snapshots *)
+From BLB Require Raft.LeaderSuffixR Raft.LeaderSuffixRExample.
+
+(* [FULL] leader_commits_own_suffix for leaderships that contain AddNode, RemoveNode and SnapshotDone events: start state as in
+   leader_commits_own_suffix_with_snapshots (leader, log contiguous with the snapshot, snapshot index at most commit index, commit
+   index equal to last index); the loop runs Deliver of any message, Tick, Propose of any batch, Bootstrap, AddNode and RemoveNode
+   as the core accepts or refuses them, each completed without crash and leaving the node leader of the same term, and
+   SnapshotDone at an applied position (index between 1 and the commit index).  lp_prop accumulates what was handed to the log:
+   the stamped batch of a Propose and the configuration entry the core itself appends for an accepted AddNode or RemoveNode (an
+   own-term entry of the leader's log; nothing when it refuses); lp_comm accumulates what TakeNewlyCommitted returned.  After
+   every further event lp_comm followed by the newly returned entries is a prefix of lp_prop.  Restart ends a leadership and
+   stays outside.  The SnapshotDone case and the loop invariant are those of C03 LeaderLoopSnap.v *)
+Theorem leader_commits_own_suffix_with_reconfiguration :
+  forall s0 evs st1 ev st2,
+    loop_start_snap s0 ->
+    Raft.LeaderSuffixR.loop_runR {| lp_node := s0; lp_prop := []; lp_comm := [] |} evs st1 ->
+    Raft.LeaderSuffixR.loop_stepR st1 ev st2 ->
+    lp_comm st2 = lp_comm st1 ++ n_commits (lp_node st2) /\
+    lp_prop st2 = lp_prop st1 ++ Raft.LeaderSuffixR.proposed_byR (lp_node st1) ev (lp_node st2) /\
+    Raft.LeaderSuffix.prefix (lp_comm st1 ++ n_commits (lp_node st2)) (lp_prop st2).
+Proof. exact Raft.LeaderSuffixR.leader_commits_own_suffix_with_reconfiguration. Qed.
+Print Assumptions leader_commits_own_suffix_with_reconfiguration.
+
+(* [FULL] what a reconfiguration event of the loop appends: the leader's log is unchanged, or extended by exactly one settled single-server
+   configuration entry of the current term (Sh); and non-vacuity: node 1 of the combined run, leader of term 2 with an empty
+   physical log behind the snapshot of index 3, accepts RemoveNode 2, which appends the configuration entry 4, then receives the
+   acknowledgement of node 3: the proposed list is that one entry and it is committed and handed over *)
+Theorem leader_commits_own_suffix_with_reconfiguration_nonvacuous :
+  (forall s ev code s',
+     n_role s = Leader -> Raft.LeaderSuffixR.reconf_event ev -> run_event (settle s) ev = Ret (code, s') ->
+     p_term (n_p s') = p_term (n_p s) -> Raft.MemberLeaderLog.Sh s (p_log (n_p s'))) /\
+  (exists s0 evs st,
+     loop_start_snap s0 /\ p_log (n_p s0) = [] /\ n_commit s0 = 3 /\
+     Raft.LeaderSuffixR.loop_runR {| lp_node := s0; lp_prop := []; lp_comm := [] |} evs st /\
+     evs = [ERemoveNode 2; EDeliver q19] /\
+     map (fun e => (e_index e, e_term e, e_type e)) (lp_prop st) = [(4, 2, EntryConf)] /\
+     lp_comm st = lp_prop st /\ n_commit (lp_node st) = 4).
+Proof. exact (conj Raft.LeaderSuffixRExample.reconf_appended_shape Raft.LeaderSuffixRExample.leader_suffix_reconf_nonvacuous). Qed.
+Print Assumptions leader_commits_own_suffix_with_reconfiguration_nonvacuous.
+
+(* ---------------------------------------------------------------- round 13: AddNode of the own id *)
+From BLB Require Raft.MemberSnapSystemW.
+
+(* [FULL] node level, core.go AddNode and core_leader.go addNode: a request to add the node's OWN id is refused and changes nothing when the node is
+   not leader (E_NOT_LEADER), or is a member of its latest configuration (E_NODE_EXISTS), or its latest configuration is not yet
+   committed (E_TOO_MANY); it never crashes.  The only case in which the core would accept it - a leader that is not a member of
+   its latest configuration although that configuration is committed - does not arise on the real code because such a leader has
+   stepped down; that reachable-state fact is not proved, see NOT YET PROVED *)
+Theorem add_node_of_self_is_refused :
+  forall s rnd,
+    n_role s <> Leader \/ in_latest_conf s = true \/ latest_conf_committed s = false ->
+    match add_node s (n_id s) rnd with
+    | Ret (code, x) => x = s /\ (code = E_NOT_LEADER \/ code = E_NODE_EXISTS \/ code = E_TOO_MANY)
+    | Crashed _ => False
+    | Fatal _ => True
+    end.
+Proof. exact Raft.MemberSnapSystemW.add_self_refused. Qed.
+Print Assumptions add_node_of_self_is_refused.
+
+(* [FULL] the four clauses over the combined alphabet wstep, in which the side condition on AddNode is weakened to what the code needs: a node MAY
+   be asked to add itself whenever the core refuses the request (not leader, or member of its latest configuration, or latest
+   configuration uncommitted).  Such a step reaches the same state as a refused RemoveNode of a non-member, so every run of wstep
+   is a run of cstep with another schedule, and election safety, log matching, leader completeness and state machine safety
+   carry over.  The other side conditions are those of cstep *)
+Theorem four_clauses_combined_with_refused_self_add :
+  forall bm be, NoDup bm ->
+  (forall a0 a sched,
+     minitS a0 -> run asys sys_event (Raft.MemberSnapSystemW.wstep bm be) a0 sched a ->
+     forall t x y, In (t, x) (sy_hist (fst a)) -> In (t, y) (sy_hist (fst a)) -> x = y) /\
+  (forall a0 a sched,
+     minitS a0 -> run asys sys_event (Raft.MemberSnapSystemW.wstep bm be) a0 sched a ->
+     exists Cf, Raft.MemberSnapSystemU.fitsC a Cf /\
+       forall x y k k' e e',
+         In x (sy_nodes (fst a)) -> In y (sy_nodes (fst a)) ->
+         nth_error (Raft.MemberSnapSystemU.llogC Cf x) k = Some e -> nth_error (Raft.MemberSnapSystemU.llogC Cf y) k' = Some e' ->
+         e_index e = e_index e' -> e_term e = e_term e' ->
+         k = k' /\ firstn (Datatypes.S k) (Raft.MemberSnapSystemU.llogC Cf x) = firstn (Datatypes.S k) (Raft.MemberSnapSystemU.llogC Cf y)) /\
+  (forall a0 a1 a2 sched1 sched2,
+     minitS a0 -> run asys sys_event (Raft.MemberSnapSystemW.wstep bm be) a0 sched1 a1 ->
+     run asys sys_event (Raft.MemberSnapSystemW.wstep bm be) a1 sched2 a2 ->
+     exists Cf1 Cf2, Raft.MemberSnapSystemU.fitsC a1 Cf1 /\ Raft.MemberSnapSystemU.fitsC a2 Cf2 /\
+       forall x b,
+         In x (sy_nodes (fst a1)) -> In b (sy_nodes (fst a2)) -> n_role b = Leader -> p_term (n_p x) < p_term (n_p b) ->
+         (N.to_nat (n_commit x) <= length (Raft.MemberSnapSystemU.llogC Cf1 x))%nat /\
+         firstn (N.to_nat (n_commit x)) (Raft.MemberSnapSystemU.llogC Cf2 b) = firstn (N.to_nat (n_commit x)) (Raft.MemberSnapSystemU.llogC Cf1 x)) /\
+  (forall a0 a1 a2 sched1 sched2,
+     minitS a0 -> run asys sys_event (Raft.MemberSnapSystemW.wstep bm be) a0 sched1 a1 ->
+     run asys sys_event (Raft.MemberSnapSystemW.wstep bm be) a1 sched2 a2 ->
+     forall n1 n2 x y,
+       In n1 (sy_nodes (fst a1)) -> In n2 (sy_nodes (fst a2)) -> In x (n_commits n1) -> In y (n_commits n2) ->
+       e_index x = e_index y -> x = y).
+Proof.
+  intros bm be Hbm.
+  exact (conj (Raft.MemberSnapSystemW.election_safety_combined_w bm be Hbm)
+        (conj (Raft.MemberSnapSystemW.log_matching_combined_w bm be Hbm)
+        (conj (Raft.MemberSnapSystemW.leader_completeness_combined_w bm be Hbm)
+              (Raft.MemberSnapSystemW.state_machine_safety_combined_w bm be Hbm)))).
+Qed.
+Print Assumptions four_clauses_combined_with_refused_self_add.
+
 (* NOT YET PROVED (statements kept visible; listed in props/C02.json not_yet_proved):
-   nothing remains open for the four clauses over the combined alphabet cstep of Raft/MemberSnapSystemU.v (membership changes AND
-   snapshots in one run, no restriction on deliveries): election_safety_combined, leader_completeness_combined,
-   log_matching_combined, state_machine_safety_combined, with combined_run_nonvacuous and
-   state_machine_safety_combined_nonvacuous as witnesses.
-   Side conditions of cstep that are not hypotheses of raft.go: proposals carry no configuration entries (raft.go proposes them
-   only through AddNode / RemoveNode), nobody asks a node to add itself, one bootstrap membership without duplicates; SnapshotDone
-   is issued as fsm_loop.go issues it (an applied position with its term and lastAppliedMembership).  Log matching and leader
-   completeness are stated over logical logs through a ghost assignment whose existence is part of the statement.
-   Still open outside the four clauses: the leader-loop contract leader_commits_own_suffix_with_snapshots excludes AddNode,
-   RemoveNode, SnapshotDone and Restart inside the loop, and its start condition is an assumption about raft.go's loop.
+   the four clauses are proved over the combined alphabet (see the INDEX at the top).  What remains are side conditions of that
+   alphabet which are not theorems about raft.go:
+   (i) one bootstrap membership without duplicates (an operator action);
+   (ii) proposals carry no configuration entries: the public API Raft.Propose takes a byte slice and wraps it into an EntryNormal,
+        configuration entries are built only by addNode and removeNode; a fact about Go types, not stated in Coq;
+   (iii) AddNode of the node's own id is covered whenever the core refuses it (add_node_of_self_is_refused,
+        four_clauses_combined_with_refused_self_add); the one excluded case is a leader that is not a member of its latest
+        configuration although that configuration is committed.  On the real code such a leader has stepped down
+        (leader_commit_up_to); the reachable-state invariant saying so is not proved;
+   (iv) SnapshotDone is issued as fsm_loop.go issues it: an applied position, its term and lastAppliedMembership; the state machine
+        loop is outside the model, so this is an assumption about fsm_loop.go checked by reading it.
+   The leader-loop contract (leader_commits_own_suffix_with_reconfiguration) covers AddNode, RemoveNode and SnapshotDone inside the
+   loop; its start condition (commit index = last index once the term's NOP is applied) is an assumption about raft.go's loop,
+   and events that crash or end the leadership (Restart) are outside by definition.
    On the real code all four clauses are evaluated after every event by the monitors of the Go simulation, whose random
    schedules mix snapshots, trims, AddNode and RemoveNode. *)
